@@ -37,4 +37,42 @@ structure UrlExt where
   urlParse : Str → Option URL × Option Err
   reMatch : Str → Str → Bool × Option Err
 
+/-! ### lib/pwauth/ldap `passwordAuthenticate` -/
+
+/-- the one effect `passwordAuthenticate` has besides its answer: `updateOrDeletePasswordHash(valid, user, password)`
+(store a fresh hash of a password the directory accepted / evict the stored hash of one it rejected) -/
+inductive PwEffect
+  | update (valid : Bool) (user : Str) (password : Str)
+deriving DecidableEq, Repr
+
+/-- externals of `passwordAuthenticate`; `σ` stands for one configured LDAP server (`*url.URL`).  Nothing is assumed
+about them in the equivalence theorem (it holds for every `ext`). -/
+structure LdapExt (σ : Type) where
+  /-- `convertToBindDN(username, bindPattern)` -/
+  bindDN : Str → Str → Str
+  /-- `authutil.CheckLDAPUserPassword(server, bindDN, password, …)`: the verdict, or an error (server unreachable,
+  anything that is not a credential verdict) -/
+  checkLDAP : σ → Str → Str → Bool × Option Err
+  /-- what `updateOrDeletePasswordHash` returns (only logged by the caller) -/
+  updateResult : Bool → Str → Str → Option Err
+  /-- `pa.storage.GetSigned(username, passwordDataType)` -/
+  getSigned : Str → Int → Bool × Str × Option Err
+  /-- `authutil.Argon2CompareHashAndPassword(hash, password)`: `none` = the password matches the hash -/
+  argon2Compare : Str → Str → Option Err
+
+/-- the writes `updateOrDeletePasswordHash` makes to the record store -/
+inductive StoreEffect
+  | upsert (user : Str) (dataType : Int) (expiresAt : Int) (hash : Str)
+  | delete (user : Str) (dataType : Int)
+deriving DecidableEq, Repr
+
+/-- externals of `updateOrDeletePasswordHash` -/
+structure HashStoreExt where
+  /-- `authutil.Argon2MakeNewHash(password)` -/
+  newHash : Str → Str × Option Err
+  upsertResult : Str → Int → Int → Str → Option Err
+  getSigned : Str → Int → Bool × Str × Option Err
+  argon2Compare : Str → Str → Option Err
+  deleteResult : Str → Int → Option Err
+
 end KM.GoTypes
